@@ -1387,7 +1387,7 @@ pub fn gen_many_roots(prop: &str, seed: u64, thorough: bool) -> Case {
     let mut case = Case::new(prop, "direct-many-roots", seed, Mode::Direct);
     direct_params(&mut case, 3_000_000);
     let n_groups = rng.range(2, 4);
-    let per = if thorough { 6_000 } else { 1_500 };
+    let per = if thorough { 6_000 } else { 1_000 };
     for _ in 0..n_groups {
         let r = loop {
             let r = rng.pick(ROOTS);
@@ -1433,7 +1433,7 @@ pub fn gen(prop: &str, seed: u64, thorough: bool) -> Case {
             7 => gen_direct_history(prop, seed, false),
             8 => gen_sibling_pairs(prop, seed),
             _ => {
-                if seed % 40 == 9 {
+                if seed % 20 == 9 {
                     gen_many_roots(prop, seed, thorough)
                 } else {
                     gen_sibling_pairs(prop, seed)
